@@ -856,7 +856,10 @@ def c17_pagemul(ctx, seqrun, stats, divs):
     for n, e in zip(ns, exp):
         g = got.get(n)
         if g is None or g != (e, e, e):
-            ctx.violation(f'a vmem buffer requested with minimum {n} has length {g[1] if g else None} (get_page_size_mul = {g[0] if g else None}); the least whole number of pages is {e}',
+            what = (f'a vmem buffer built by default({n}) does not hold T::default() in every one of its {e} slots (the slots beyond the requested minimum are ordinary ring positions)'
+                    if g and g[1] == -2 else
+                    f'a vmem buffer requested with minimum {n} has length {g[1] if g else None} (get_page_size_mul = {g[0] if g else None}); the least whole number of pages is {e}')
+            ctx.violation(what,
                           f'## requested minimum {n}, page size {page}: expected length {e} (Model page_mul, theorem C17_round), got get_page_size_mul={g}\n'
                           f'## replay: .build/cargo-vmem/debug/seqrun --pagemul {n}\n')
             return
